@@ -432,6 +432,9 @@ void vr_case(uint64_t seed, uint64_t idx, int profile)
         free(arr);
         static const uint64_t passes[] = { (1ull << 31) + 7, (1ull << 31) - 3, (1ull << 32) + 5 };
         uint64_t np = passes[idx % 3]; if (idx >= 3) np = (1ull << 16) + idx;
+        /* the queue also outlives a simulation run: the first object is put while the clock of one run reads 50, the last one after that run
+         * is over and the clock of the next reads 0 (or -100): put order is what counts, not the clock */
+        cmb_event_queue_initialize(50.0);
         struct cmb_priorityqueue *pq = cmb_priorityqueue_create(); cmb_priorityqueue_initialize(pq, "long-lived", CMB_UNLIMITED);
         static int early, late, other; uint64_t he = 0, hl = 0, h = 0; void *o = NULL;
         if (cmb_priorityqueue_put(pq, &early, 0, &he) != CMB_PROCESS_SUCCESS) { vr_inconclusive("put failed"); return; }
@@ -441,13 +444,14 @@ void vr_case(uint64_t seed, uint64_t idx, int profile)
             if ((k & 0xfffff) == 0 && cmb_priorityqueue_length(pq) != 1) vr_violation("C12/pq-length", "pass %" PRIu64 ": length %" PRIu64, k, cmb_priorityqueue_length(pq));
         }
         if (vr_nviol == 0) {
+            cmb_event_queue_terminate(); cmb_event_queue_initialize(idx % 2 ? -100.0 : 0.0); VR_CNT("queues_kept_across_a_change_of_clock");
             if (cmb_priorityqueue_put(pq, &late, 0, &hl) != CMB_PROCESS_SUCCESS) { vr_inconclusive("put failed"); return; }
             uint64_t pe = cmb_priorityqueue_position(pq, he), pl = cmb_priorityqueue_position(pq, hl);
             if (pe != 1 || pl != 2) vr_violation("C12/pq-position", "after %" PRIu64 " objects have passed through: the object queued before them (handle %" PRIu64 ") is at position %" PRIu64 ", the one of the same priority put after them (handle %" PRIu64 ") at %" PRIu64, np, he, pe, hl, pl);
             else if (cmb_priorityqueue_get(pq, &o) != CMB_PROCESS_SUCCESS || o != (void *)&early) vr_violation("C12/pq-order", "after %" PRIu64 " objects have passed through, equal priorities are no longer delivered in put order", np);
         }
         VR_ADD("objects_passed_through_a_long_lived_queue", np); VR_CNT("long_lived_queues");
-        vr_mark_nontrivial(); if (vr_nviol == 0) cmb_priorityqueue_destroy(pq); return;
+        vr_mark_nontrivial(); if (vr_nviol == 0) { cmb_priorityqueue_destroy(pq); cmb_event_queue_terminate(); } return;
     }
     if (profile == 7) {
         q_mode = 5; if (ntrials > 200) ntrials = 200;
